@@ -1,25 +1,26 @@
-/- REGENERATED on every run by harness/props/c17.py from structure/residues.py, chains.py, segments.py. Do not edit. -/
-namespace BiotiteModel.Gen.C17
-/-- annotations whose change masks are OR-ed in `get_residue_starts`. -/
-def residueFields : List String := ["chain_id", "res_id", "ins_code", "res_name"]
-/-- operands of the mask union in `get_chain_starts` (`decrease:<annotation>` for `X[1:] < X[:-1]`, `diff:<annotation>:<op>:<bound>` for a test on np.diff). -/
-def chainTerms : List String := ["decrease:res_id", "chain_id"]
-/-- (without, with exclusive stop) returned for an empty array by get_residue_starts / get_chain_starts. -/
-def emptyReturns : List (List Nat × List Nat) := [([], [0]), ([], [0])]
-/-- (function, side of np.searchsorted, subtracted constant). -/
-def searchSides : List (String × String × String) := [("get_segment_masks", "right", "1"), ("get_segment_starts_for", "right", "1"), ("get_segment_positions", "right", "1")]
-/-- index guards: (function, [(condition, exception)]). -/
-def guards : List (String × List (String × String)) := [("get_segment_masks", [("Lt 0", "ValueError"), ("GtE starts[-1]", "ValueError")]), ("get_segment_starts_for", [("Lt 0", "ValueError"), ("GtE starts[-1]", "ValueError")]), ("get_segment_positions", [("Lt 0", "ValueError"), ("GtE starts[-1]", "ValueError")])]
-/-- every place in molecules.py that looks at a bond type (BondType members, the type column, bond removal). -/
-def moleculeBondTypeRefs : List String := []
-/-- every mention of bond types in bonds.pyx find_connected / _find_connected. -/
-def connectedBondTypeRefs : List String := []
+/-!
+# C17 — the shape of the source the hand-written model was written against (tie pass 7)
+
+HAND-KEPT (not regenerated): the normal forms below are what `Model/C17.lean` / `Model/C17Graph.lean` model, statement
+by statement.  `Gen/C17.lean` is regenerated from /repo on every run with the same normalisation (docstrings, comments
+and error messages dropped, local names alpha-renamed `v0, v1, …`, `x.any()` ↦ `np.any(x)`, operands of `|` sorted);
+`C17_gen_source_shape` (Props) proves regenerated = expected.  Correspondence of the pieces:
+
+* `get_*_starts`            ↦ `changeMask`, `orMask`, `whereTrue … .map (· + 1)`, `startsOf`, `residueMask`, `chainMask`
+* wrappers `*_residue_wise`, `get_*_masks`, … ↦ the driver's `startsWithStop` + the `seg*` function of the same name;
+  `get_residues`/`get_chains`/counts ↦ `gather` / `.length` on the starts WITHOUT stop
+* `apply_segment_wise` ↦ `applySeg` (loop over `range(len(starts)-1)`, slice `data[starts[i]:starts[i+1]]`, `np.zeros(0)` for none)
+* `spread_segment_wise` ↦ `spreadSeg`;  `segment_iter` ↦ `segIter`
+* `get_segment_masks/_starts_for/_positions` ↦ `segMasks`/`segStartsFor`/`segPositions` (`checkIdx` = the two guards in this
+  order, `searchRight` = `searchsorted(side='right')`, `- 1`, `starts[:-1]` = `dropLast` in the latter two)
+* `get_molecule_indices` ↦ `molLoop` (`argmin` = first False, `visited_mask[connected] = True` = `markAll`), `get_molecule_masks`
+  ↦ `moleculeMasks`; `find_connected`/`_find_connected` ↦ `findConnected`/`visit`; `get_all_bonds` ↦ `neighbours`
+-/
+namespace BiotiteModel.C17.Source
 /-- signatures (parameter order and default values) of the anchored public functions. -/
-def signatures : List String := ["get_residue_starts(array, add_exclusive_stop=False)", "apply_residue_wise(array, data, function, axis=None)", "spread_residue_wise(array, input_data)", "get_residue_masks(array, indices)", "get_residue_starts_for(array, indices)", "get_residue_positions(array, indices)", "get_residues(array)", "get_residue_count(array)", "residue_iter(array)", "get_chain_starts(array, add_exclusive_stop=False)", "apply_chain_wise(array, data, function, axis=None)", "spread_chain_wise(array, input_data)", "get_chain_masks(array, indices)", "get_chain_starts_for(array, indices)", "get_chain_positions(array, indices)", "get_chains(array)", "get_chain_count(array)", "chain_iter(array)", "apply_segment_wise(starts, data, function, axis=None)", "spread_segment_wise(starts, input_data)", "get_segment_masks(starts, indices)", "get_segment_starts_for(starts, indices)", "get_segment_positions(starts, indices)", "segment_iter(array, starts)", "get_molecule_indices(array)", "get_molecule_masks(array)", "molecule_iter(array)", "find_connected(bond_list, uint32 root, bint as_mask=False)"]
-/-- (function, first start, index into np.where(..), offset added, expression of the exclusive stop). -/
-def startsBuild : List (String × Nat × Nat × Nat × String) := [("get_residue_starts", 0, 0, 1, "[array.array_length()]"), ("get_chain_starts", 0, 0, 1, "[array.array_length()]")]
+def expectedSignatures : List String := ["get_residue_starts(array, add_exclusive_stop=False)", "apply_residue_wise(array, data, function, axis=None)", "spread_residue_wise(array, input_data)", "get_residue_masks(array, indices)", "get_residue_starts_for(array, indices)", "get_residue_positions(array, indices)", "get_residues(array)", "get_residue_count(array)", "residue_iter(array)", "get_chain_starts(array, add_exclusive_stop=False)", "apply_chain_wise(array, data, function, axis=None)", "spread_chain_wise(array, input_data)", "get_chain_masks(array, indices)", "get_chain_starts_for(array, indices)", "get_chain_positions(array, indices)", "get_chains(array)", "get_chain_count(array)", "chain_iter(array)", "apply_segment_wise(starts, data, function, axis=None)", "spread_segment_wise(starts, input_data)", "get_segment_masks(starts, indices)", "get_segment_starts_for(starts, indices)", "get_segment_positions(starts, indices)", "segment_iter(array, starts)", "get_molecule_indices(array)", "get_molecule_masks(array)", "molecule_iter(array)", "find_connected(bond_list, uint32 root, bint as_mask=False)"]
 /-- normalised bodies of the modelled .py functions (locals alpha-renamed, messages dropped). -/
-def pyBodies : List (String × List String) := [
+def expectedPyBodies : List (String × List String) := [
   ("get_residue_starts", ["if array.array_length() == 0:", "    return np.array([0] if add_exclusive_stop else [], dtype=int)", "v0 = array.chain_id[1:] != array.chain_id[:-1]", "v1 = array.res_id[1:] != array.res_id[:-1]", "v2 = array.ins_code[1:] != array.ins_code[:-1]", "v3 = array.res_name[1:] != array.res_name[:-1]", "v4 = v0 | v1 | v2 | v3", "v5 = np.where(v4)[0] + 1", "if add_exclusive_stop:", "    return np.concatenate(([0], v5, [array.array_length()]))", "else:", "    return np.concatenate(([0], v5))"]),
   ("apply_residue_wise", ["v0 = get_residue_starts(array, add_exclusive_stop=True)", "return apply_segment_wise(v0, data, function, axis)"]),
   ("spread_residue_wise", ["v0 = get_residue_starts(array, add_exclusive_stop=True)", "return spread_segment_wise(v0, input_data)"]),
@@ -38,7 +39,7 @@ def pyBodies : List (String × List String) := [
   ("get_chains", ["return array.chain_id[get_chain_starts(array)]"]),
   ("get_chain_count", ["return len(get_chain_starts(array))"]),
   ("chain_iter", ["v0 = get_chain_starts(array, add_exclusive_stop=True)", "for v1 in segment_iter(array, v0):", "    yield v1"]),
-  ("apply_segment_wise", ["v0 = None", "for v1 in range(len(starts) - 1):", "    v2 = data[starts[v1]:starts[v1 + 1]]", "    if axis is None:", "        v3 = function(v2)", "    else:", "        v3 = function(v2, axis=axis)", "    if v0 is None:", "        if isinstance(v3, np.ndarray):", "            v0 = np.zeros((len(starts) - 1,) + v3.shape, dtype=v3.dtype)", "        else:", "            v0 = np.zeros(len(starts) - 1, dtype=type(v3))", "    v0[v1] = v3", "if v0 is None:", "    return np.zeros(0, dtype=int)", "return v0"]),
+  ("apply_segment_wise", ["v0 = None", "for v1 in range(len(starts) - 1):", "    v2 = data[starts[v1]:starts[v1 + 1]]", "    if axis is None:", "        v3 = function(v2)", "    else:", "        v3 = function(v2, axis=axis)", "    if v0 is None:", "        if isinstance(v3, np.ndarray):", "            v0 = np.zeros((len(starts) - 1,) + v3.shape, dtype=v3.dtype)", "        else:", "            v0 = np.zeros(len(starts) - 1, dtype=type(v3))", "    v0[v1] = v3", "if v0 is None:", "    return np.zeros(0)", "return v0"]),
   ("spread_segment_wise", ["v0 = starts[1:] - starts[:-1]", "return np.repeat(input_data, v0, axis=0)"]),
   ("get_segment_masks", ["indices = np.asarray(indices)", "v0 = starts[-1]", "v1 = np.zeros((len(indices), v0), dtype=bool)", "if np.any(indices < 0):", "    raise ValueError", "if np.any(indices >= v0):", "    v2 = np.min(np.where(indices >= v0)[0])", "    raise ValueError", "v3 = np.searchsorted(starts, indices, side='right') - 1", "for v4, v5 in enumerate(v3):", "    v1[v4, starts[v5]:starts[v5 + 1]] = True", "return v1"]),
   ("get_segment_starts_for", ["indices = np.asarray(indices)", "v0 = starts[-1]", "starts = starts[:-1]", "if np.any(indices < 0):", "    raise ValueError", "if np.any(indices >= v0):", "    v1 = np.min(np.where(indices >= v0)[0])", "    raise ValueError", "v2 = np.searchsorted(starts, indices, side='right') - 1", "return starts[v2]"]),
@@ -48,8 +49,8 @@ def pyBodies : List (String × List String) := [
   ("get_molecule_masks", ["if isinstance(array, BondList):", "    v0 = array", "elif isinstance(array, (AtomArray, AtomArrayStack)):", "    if array.bonds is None:", "        raise ValueError", "    v0 = array.bonds", "else:", "    raise TypeError", "v1 = get_molecule_indices(v0)", "v2 = np.zeros((len(v1), v0.get_atom_count()), dtype=bool)", "for v3 in range(len(v1)):", "    v2[v3, v1[v3]] = True", "return v2"]),
   ("molecule_iter", ["if array.bonds is None:", "    raise ValueError", "v0 = array.bonds", "v1 = np.zeros(v0.get_atom_count(), dtype=bool)", "while not np.all(v1):", "    v2 = np.argmin(v1)", "    v3 = find_connected(v0, v2)", "    v1[v3] = True", "    yield array[..., v3]"])]
 /-- code lines of the modelled bonds.pyx functions (comments / docstrings dropped). -/
-def pyxBodies : List (String × List String) := [
+def expectedPyxBodies : List (String × List String) := [
   ("find_connected", ["def find_connected(bond_list, uint32 root, bint as_mask=False):", "all_bonds, _ = bond_list.get_all_bonds()", "if root >= bond_list.get_atom_count():", "raise ValueError(", "f\"Root atom index {root} is out of bounds for bond list \"", "f\"representing {bond_list.get_atom_count()} atoms\"", ")", "cdef uint8[:] is_connected_mask = np.zeros(", "bond_list.get_atom_count(), dtype=np.uint8", ")", "_find_connected(bond_list, root, is_connected_mask, all_bonds)", "if as_mask:", "return is_connected_mask", "else:", "return np.where(np.asarray(is_connected_mask))[0]"]),
   ("_find_connected", ["cdef _find_connected(bond_list,", "int32 index,", "uint8[:] is_connected_mask,", "int32[:,:] all_bonds):", "if is_connected_mask[index]:", "return", "is_connected_mask[index] = True", "cdef int32 j", "cdef int32 connected_index", "for j in range(all_bonds.shape[1]):", "connected_index = all_bonds[index, j]", "if connected_index == -1:", "continue", "_find_connected(", "bond_list, connected_index, is_connected_mask, all_bonds", ")"]),
   ("BondList.get_all_bonds", ["def get_all_bonds(self):", "cdef int i=0", "cdef uint32 atom_index_i, atom_index_j, bond_type", "cdef uint32[:,:] all_bonds_v = self._bonds", "cdef np.ndarray bonds = np.full(", "(self._atom_count, self._max_bonds_per_atom), -1, dtype=np.int32", ")", "cdef int32[:,:] bonds_v = bonds", "cdef np.ndarray bond_types = np.full(", "(self._atom_count, self._max_bonds_per_atom), -1, dtype=np.int8", ")", "cdef int8[:,:] bond_types_v = bond_types", "cdef np.ndarray lengths = np.zeros(self._atom_count, dtype=np.uint32)", "cdef uint32[:] lengths_v = lengths", "for i in range(all_bonds_v.shape[0]):", "atom_index_i = all_bonds_v[i,0]", "atom_index_j = all_bonds_v[i,1]", "bond_type = all_bonds_v[i,2]", "bonds_v[atom_index_i, lengths_v[atom_index_i]] = atom_index_j", "bonds_v[atom_index_j, lengths_v[atom_index_j]] = atom_index_i", "bond_types_v[atom_index_i, lengths_v[atom_index_i]] = bond_type", "bond_types_v[atom_index_j, lengths_v[atom_index_j]] = bond_type", "lengths_v[atom_index_i] += 1", "lengths_v[atom_index_j] += 1", "return bonds, bond_types"])]
-end BiotiteModel.Gen.C17
+end BiotiteModel.C17.Source
